@@ -30,6 +30,7 @@ type RunRec struct {
 type St struct {
 	Counter int
 	Log     []string
+	Saved   map[string]any
 }
 
 // GenState is a state generator for compose.WithGenLocalState.
